@@ -1,7 +1,9 @@
+\* Default design check (3 nodes, hash space 0..3). tools/props/c17.py writes the configurations it runs itself
+\* (1..4 nodes; hash space 0..7 for 1-2 nodes, 0..3/0..5 for 3 nodes, 0..1/0..2 for 4 nodes: quick/thorough).
 CONSTANTS
   NodeSeq <- Nodes3
   R = 2
-  HMax = 7
+  HMax = 3
   KeyNames <- KeyNames6
 SPECIFICATION Spec
 INVARIANTS OrderIndependent Total MinimalMovementOnRemove MinimalMovementOnAdd SignatureEqualIffSameRing WellFormed
